@@ -380,6 +380,23 @@ pub fn tier3(quick: bool) -> Vec<Program> {
             }
         }
     }
+    // several hidden FD variables whose labeling needs a JOINT search: the first value of one
+    // is not refuted by propagation but leaves the others without a solution (pigeonhole over
+    // distinctfd); whichever variable the domain store yields first, the answer exists
+    {
+        let d = T::V(4);
+        let doms3 = G::InFd(vec![a.clone(), b.clone(), c.clone()], Dom::Range(1, 3));
+        let dom4 = G::InFd(vec![d.clone()], Dom::Range(1, 4));
+        let dist = G::DistinctFd(T::list(vec![a.clone(), b.clone(), c.clone(), d.clone()]));
+        let dist2 = G::DistinctFd(T::list(vec![d.clone(), c.clone(), b.clone(), a.clone()]));
+        for qeq in [G::Eq(q.clone(), T::I(10)), G::Eq(q.clone(), T::list(vec![a.clone()])), G::Eq(q.clone(), T::list(vec![d.clone()]))] {
+            out.push(Program { nq: 1, body: vec![G::Fresh(vec![1, 2, 3, 4], vec![qeq.clone(), doms3.clone(), dom4.clone(), dist.clone()])] });
+            out.push(Program { nq: 1, body: vec![G::Fresh(vec![1, 2, 3, 4], vec![dom4.clone(), doms3.clone(), dist2.clone(), qeq.clone()])] });
+            out.push(Program { nq: 1, body: vec![G::Fresh(vec![1, 2, 3, 4], vec![dist.clone(), qeq.clone(), dom4.clone(), doms3.clone()])] });
+        }
+        // the same with two answers
+        out.push(Program { nq: 1, body: vec![G::Fresh(vec![1, 2, 3, 4], vec![G::Conde(vec![vec![G::Eq(q.clone(), T::I(10))], vec![G::Eq(q.clone(), T::I(20))]]), doms3.clone(), dom4.clone(), dist.clone()])] });
+    }
     // FD under conde
     for d in &doms {
         let dm = G::InFd(vec![a.clone(), b.clone()], d.clone());
